@@ -2,6 +2,8 @@
 (* C09 trace validation.  One event = one call of tucker / tensor_train / tensor_train_matrix /       *)
 (* tensor_ring of the real tensorly code:                                                            *)
 (*   e.cfg  = [op, shape, rank, mode]      e.svd, e.iters (tucker only, else 0), e.dtype of the input   *)
+(*   e.rspec / e.frac = how the rank was specified, e.via = function | class | refit (e.pre = shape of   *)
+(*            the tensor the same estimator was fitted on first)                                      *)
 (*   e.ten  = [op |-> "matching", shape, idx, vals]  (exact tier; e.data = the entries fed to the     *)
 (*            code) or [op |-> "measured", shape, fam] with e.tails = measured tails of the           *)
 (*            unfoldings relative to ||X||^2 (scale 10^8)                                              *)
@@ -29,6 +31,9 @@ InDomain(e) ==
     /\ ValidCfg(e.cfg)
     /\ e.dtype \in Dtypes
     /\ (e.dtype \in {"int64", "int32"} => e.ten.op = "matching" \/ e.ten.fam \in IntegerFams)
+    /\ ValidRankSpec(e.cfg, e.rspec, e.frac) /\ e.via \in Vias
+    /\ (e.via = "refit" => /\ Len(e.pre) = Len(e.cfg.shape)
+                            /\ \A k \in 1..Len(e.pre) : e.pre[k] \in 1..6)       \* shape of the tensor fitted first
     /\ e.svd \in Svds /\ e.iters \in Iters \cup {0} /\ (e.cfg.op # "tucker" => e.iters = 0)
     /\ IF e.ten.op = "matching"
        THEN /\ ValidMatching(e.ten) /\ e.ten.shape = e.cfg.shape /\ e.data = DataOf(e.ten)
@@ -36,21 +41,37 @@ InDomain(e) ==
        ELSE /\ e.ten.op = "measured" /\ MeasuredOK(e)
             /\ e.svd # "randomized_svd"        \* not an exact method on dense data (no oversampling control here)
 
+\* c: the configuration whose rank vector the bounds read (the request, or for computed specifications the
+\* returned ranks)
+Judge(e, c) ==
+    IF ~e.out.fin THEN "Finite"
+    ELSE LET tails == IF e.ten.op = "matching" THEN ExactTails(c, e.ten) ELSE e.tails
+             lb == LowerBound(c, tails)
+             ub == UpperBound(c, tails)
+             sl == SlackFor(NUnf(c), e.dtype)
+         IN  IF ub = 0 /\ e.out.err2_q > Slack(NUnf(c)) THEN "ExactAtSufficientRank"
+             ELSE IF e.out.err2_q < lb - sl THEN "LowerBound"
+             ELSE IF e.out.err2_q > ub + sl THEN "UpperBound"
+             ELSE "ok"
+
+RanksWellFormed(e) ==     \* of a computed specification: usable as a rank vector of this configuration
+    /\ Len(e.out.ranks) = Len(e.cfg.rank)
+    /\ \A k \in 1..Len(e.out.ranks) : e.out.ranks[k] \in 1..30
+
 Verdict(e) ==
     IF ~InDomain(e) THEN "InDomain"
+    ELSE IF Computed(e.rspec) THEN
+         \* the ring's computed rank may be infeasible for the first unfolding (documented ValueError)
+         IF e.out.raised THEN (IF e.cfg.op = "tr" /\ e.out.exc = "ValueError" THEN "ok" ELSE "Outcome")
+         ELSE IF ~RanksWellFormed(e) THEN "Ranks"
+         ELSE LET c == [e.cfg EXCEPT !.rank = e.out.ranks] IN
+              IF Raises(c) \/ ExpRanks(c) # e.out.ranks THEN "Ranks"     \* boundary conditions, realisable
+              ELSE Judge(e, c)
     ELSE IF e.out.raised # Raises(e.cfg) THEN "Outcome"
     ELSE IF e.out.raised /\ e.out.exc # "ValueError" THEN "Outcome"
     ELSE IF e.out.raised THEN "ok"
     ELSE IF e.out.ranks # ExpRanks(e.cfg) THEN "Ranks"
-    ELSE IF ~e.out.fin THEN "Finite"
-    ELSE LET tails == IF e.ten.op = "matching" THEN ExactTails(e.cfg, e.ten) ELSE e.tails
-             lb == LowerBound(e.cfg, tails)
-             ub == UpperBound(e.cfg, tails)
-             sl == SlackFor(NUnf(e.cfg), e.dtype)
-         IN  IF ub = 0 /\ e.out.err2_q > Slack(NUnf(e.cfg)) THEN "ExactAtSufficientRank"
-             ELSE IF e.out.err2_q < lb - sl THEN "LowerBound"
-             ELSE IF e.out.err2_q > ub + sl THEN "UpperBound"
-             ELSE "ok"
+    ELSE Judge(e, e.cfg)
 
 TraceInit == i = 1 /\ cfg = NoCfg
 TraceNext == /\ i <= Len(Events)
